@@ -150,6 +150,13 @@ func blockPos(b *ssa.BasicBlock) token.Pos {
 // VerifyFunction explores fn under its contract and collects obligations.
 func (x *Exec) VerifyFunction(fn *ssa.Function, c *Contract) {
 	x.Top, x.TopC, x.TopName = fn, c, CanonName(fn)
+	if c != nil {
+		if v, ok := c.Flags["max_paths"]; ok {
+			cfg := *x.Cfg
+			fmt.Sscan(v, &cfg.MaxPaths)
+			x.Cfg = &cfg
+		}
+	}
 	st := &State{heap: map[string]Term{}, callCounts: map[string]int{}}
 	st.worlds = []WorldState{x.freshWorld("W0")}
 	fr := &Frame{fn: fn, env: map[ssa.Value]Val{}, names: map[string]nameBinding{}, loopEntry: map[int]*loopSnap{}, contract: c}
